@@ -543,10 +543,42 @@ class Engine:
             return a is b
         if isinstance(a, Sym) or isinstance(b, Sym):
             return False  # scalar vs non-scalar
+        if isinstance(a, PList) and isinstance(b, PList):
+            return self._list_eq(a, b)
+        if isinstance(a, PList) or isinstance(b, PList):
+            other = b if isinstance(a, PList) else a
+            if isinstance(other, (list,)):
+                return self._list_eq(a if isinstance(a, PList) else PList(list(a)), b if isinstance(b, PList) else PList(list(b)))
+            return False  # a list equals only a list
+        if isinstance(a, PDict) and isinstance(b, PDict) and (a.items is None or b.items is None) and a is not b:
+            raise Unsupported("== on symbolic dicts")
         try:
             return a == b
         except Exception as e:  # pragma: no cover
             raise Unsupported(f"== on {type(a).__name__}, {type(b).__name__}: {e}")
+
+    def _list_eq(self, a, b):
+        """Python list equality: same length and pairwise equal elements (symbolic lists: as a formula)"""
+        if a is b:
+            return True
+        if a.items is not None and b.items is not None:
+            if len(a.items) != len(b.items):
+                return False
+            acc = True
+            for x, y in zip(a.items, b.items):
+                acc = self.and_(acc, self.compare(ast.Eq(), x, y))
+            return acc
+        if a.items is None and b.items is None:
+            if list(a.kinds) != list(b.kinds):
+                raise Unsupported("== on symbolic lists of different element types")
+            i = z3.Int(fresh_name("i"))
+            same = z3.And(*[z3.Select(ca, i) == z3.Select(cb, i) for ca, cb in zip(a.cols, b.cols)])
+            return self.sbool(z3.And(zint(a.n) == zint(b.n), z3.ForAll([i], z3.Implies(z3.And(i >= 0, i < zint(a.n)), same))))
+        sym, con = (a, b) if a.items is None else (b, a)
+        acc = self.sbool(zint(sym.n) == len(con.items))
+        for j, y in enumerate(con.items):
+            acc = self.and_(acc, self.compare(ast.Eq(), sym.get(j), y))
+        return acc
 
     def and_(self, a, b):
         if a is True:
